@@ -32,6 +32,9 @@ type concScenario struct {
 	Supis    []string
 	Cgf      bool // CDR transfer to the (modelled) billing domain enabled
 	RaceOnly bool // too many concurrent requests for the explorer's bound: free-running pass only
+	// Reentrant: the consumer reacts to every re-authorisation notification by an update (no usage, 10 units) of the
+	// subscriber's first session, sent from inside its notification handler, before it answers the notification
+	Reentrant bool
 }
 
 func usageOp(k string, s int, rg int32, req int32, used int32, tag int32, trig ...string) Op {
@@ -116,6 +119,10 @@ func concScenarios() []concScenario {
 			}
 			return sc
 		}(),
+		// a consumer that reacts to the notification by an update sent from inside its notification handler, while another
+		// update of the same session / of the subscriber's other session is in flight
+		{Name: "notify-reentrant-update", Accounts: one, Reentrant: true, Pre: []Op{func() Op { c := mkCreate(0, "smf1"); c.Notify = "http://smf-reentrant.example/notify"; return c }(), upd0},
+			Conc: []Op{{K: "recharge", U: 0, RG: 1}, usageOp("update", 0, 1, 100, 60, 600)}},
 		{Name: "update-update-recharge", Accounts: []Account{{supiA, 1, "150", "2"}}, Pre: []Op{crA1, crA2, usageOp("update", 0, 1, 100, 0, 500)}, Conc: []Op{usageOp("update", 0, 1, 100, 75, 600), usageOp("update", 1, 1, 20, 0, 601), {K: "recharge", U: 0, RG: 1, Amt: 400}}},
 	}
 }
@@ -161,7 +168,21 @@ func concScenarioFn(sc concScenario, perm []int, noCredit ...bool) func() schedS
 			Cfg: WorldCfg{Accounts: sc.Accounts, LocalSeq: sc.LocalSeq, HorizonS: 120, Cgf: sc.Cgf},
 			Body: func(w *World, sctx *schedCtx) {
 				sctx.Go("T1", func() {
+					if sc.Reentrant {
+						var codes []int
+						reentrantFixed = true
+						reentrantConsumer = func() {
+							if hh, _ := sctx.Results["pre"].(*HistRun); hh != nil && len(hh.Sess) > 0 {
+								se := hh.Sess[0]
+								op := usageOp("update", 0, 1, 10, 0, int32(7000+len(codes)))
+								codes = append(codes, w.Do("POST", ccBase+"/chargingdata/"+se.Ref+"/update", op.Request(se.Supi), nil).Code)
+								sctx.Results["reentrant"] = codes
+							}
+						}
+						defer func() { reentrantFixed, reentrantConsumer = false, nil }()
+					}
 					h := w.ExecOps(supis, sc.Pre, len(sc.Pre), false)
+					sctx.Results["pre"] = h
 					nPre := len(h.Sess)
 					results := make([]Step, len(sc.Conc))
 					fileWrites = nil
@@ -268,6 +289,14 @@ func concScenarioFn(sc concScenario, perm []int, noCredit ...bool) func() schedS
 						fs = append(fs, Finding{"acknowledged-session-unusable", fmt.Sprintf("probe %s on reference %q answered %d %s", st.Op.K, st.Ref, st.Resp.Code, oneLine(st.Resp.Body, 100))})
 					}
 				}
+				if rc, _ := sctx.Results["reentrant"].([]int); len(rc) > 0 {
+					o.Probe = append(o.Probe, fmt.Sprintf("consumer-updates=%v", rc))
+					for _, c := range rc {
+						if c != 200 {
+							fs = append(fs, Finding{"update-from-notification-handler/" + sc.Name, fmt.Sprintf("the consumer answered the notification by an update of its session, which was answered %d", c)})
+						}
+					}
+				}
 				s := w.Snapshot(false)
 				o.Bal = s.Bal
 				o.Seq = s.LocalSeq
@@ -318,6 +347,14 @@ func concScenarioFn(sc concScenario, perm []int, noCredit ...bool) func() schedS
 					}
 					for _, st := range h.Steps {
 						add(st)
+					}
+					if rc, _ := sctx.Results["reentrant"].([]int); len(rc) > 0 && len(h.Sess) > 0 {
+						// the containers of the consumer's own updates (sent from its notification handler)
+						for k, c := range rc {
+							if c/100 == 2 {
+								want[h.Sess[0].Ref] = append(want[h.Sess[0].Ref], 7000+k)
+							}
+						}
 					}
 					if perm == nil { // (in the serial reference runs the requests are already part of the history)
 						for _, st := range results[:min(len(results), len(sc.Conc))] {
